@@ -88,9 +88,9 @@ impl MemResizable for HeapMem {
                         // mul carefully, to prevent overflow.
                         let new_mem_size = self.element_layout.size()
                             .checked_mul(new_size).unwrap();
-                        let new_mem_layout = Layout::from_size_align_unchecked(
+                        let new_mem_layout = Layout::from_size_align(
                             new_mem_size, self.element_layout.align()
-                        );
+                        ).expect("capacity overflow");
 
                         if self.size == 0 {
                             // allocate
